@@ -54,7 +54,7 @@ func c11() {
 		res, err := vlib.RunChild(bin, "nnp", cc, pl.strace, 60*time.Second)
 		if err != nil || res.TimedOut || res.Line("done") == nil {
 			run.Count("watchdog_or_crash", 1)
-			run.Inconclusive(fmt.Sprintf("nnp child did not finish (%s): %v %s", desc, err, tail(res.Stderr, 300)))
+			run.SoftInconclusive(fmt.Sprintf("nnp child did not finish (%s): %v %s", desc, err, tail(res.Stderr, 300)))
 			return
 		}
 		run.Count("children", 1)
